@@ -1,18 +1,28 @@
 import Mochi.Model.Broker
 import Mochi.Lemmas.Gather
+import Mochi.Lemmas.BrokerDelivery
 /-!
 # C03 — Every published message reaches exactly the entitled subscribers, once each
 
-Proved over the model (for every index, topic and selection of shared members):
-* the subscriber map `publishToSubscribers` iterates has **one entry per client id** — after gathering
-  over any number of overlapping subscriptions and after merging the selected shared subscriptions —
-  and each entry makes at most one write, hence at most one copy per publish and client;
-* the two gates of `publishToClient` (No Local for the publisher's own message, read permission).
-The "exactly the entitled" direction rests on C01's scan exactness plus these; end to end it is
-checked on every run by the correspondence oracle (declarative matcher over the entry set vs what
-each connection actually received).  Known finding F03 (recorded): `Subscription.Merge` ORs No Local,
-so a client holding a No Local and a plain subscription that both match its own publish gets nothing.
-Partial: schedules (concurrent publishers) are not exhibited by the sequential model.
+Proved over the model:
+* (any index, topic, selection of shared members) the subscriber map `publishToSubscribers` iterates has **one entry
+  per client id** — after gathering over any number of overlapping subscriptions and after merging the selected shared
+  subscriptions — and each entry makes at most one write; the two gates of `publishToClient` (No Local, read permission);
+* **the delivery theorem** (second half of this file; lemmas in `Mochi/Lemmas/BrokerDelivery.lean`): for a message that
+  is QoS 0 after shaping and whose topic no shared subscription matches, the connections written a PUBLISH are exactly
+  the entitled ones, each at most once — at state level (`publishToSubscribers_writes_exact`), with the subscriber map
+  replaced by the declarative matcher over the index entries (`C03_delivery_exact_state_partial`), and in every state
+  reached by ops without schedule ops and configuration changes (`C03_delivery_exact_reach_partial`,
+  `C03_delivery_exact_seq_partial`), where "holds a matching entry" is also read off the session.
+The statement is made with the model's merge of No Local (`EntitledF03`); C03 as stated (`C03_delivery_full`, with
+`EntitledSpec`) is FALSE of the model and of the broker — `C03_delivery_full_false_F03`, recorded finding F03:
+`Subscription.Merge` ORs No Local, so a client holding a No Local and a plain subscription that both match its own
+publish gets nothing.  Outside that situation both notions agree (`C03_delivery_exact_reach_spec_partial`), and
+soundness needs no proviso (`C03_delivery_sound_reach_partial`).
+Excluded (partial): shared subscriptions matching the topic, deliveries of QoS > 0 (in-flight limit, packet ids, send
+quota), the topic bytes under topic aliases, schedule ops (concurrent handlers), and the path from an inbound PUBLISH
+packet to `publishToSubscribers` (the theorems are about `publishToSubscribers s pk` in a reachable state `s`).
+End to end the correspondence oracle checks the same on every run.
 -/
 namespace Mochi.Broker
 open Mochi.Topics
@@ -122,4 +132,261 @@ example :
     (unsubscribe t [36, 115, 104, 97, 114, 101, 47, 103, 47, 103] [120]).2 = true ∧
     (unsubscribe t [36, 115, 104, 97, 114, 101, 47, 103, 47, 103] [120]).1.nodes = [] := by decide
 
+/-! ## Exactly the entitled connections are written a publish (state level)
+
+`EntitledVia s pk subs n`, `IsCopy`, `pubConn`, `ConnDistinct`: `Mochi/Lemmas/BrokerDelivery.lean`. -/
+
+/-- **Step 1.**  For a state `s` with the tables well-formed (`WF`, kept by every history) and one connection per
+    client object (`ConnDistinct`), an application message `pk` (PUBLISH, not marked "ignore" by the publish hook) that
+    is QoS 0 after shaping (its QoS is 0, or that of every entry of the subscriber map is) and no shared subscription
+    matching its topic:
+
+    * a PUBLISH is written to connection `n` **iff** `n` is the connection of a client object registered under its
+      id that is open, not inline, whose peer is not gone, that has an entry in the subscriber map
+      `(subscribers s.topics pk.topic).subs`, may read the topic, and whose MERGED subscription does not exclude it
+      by No Local (`EntitledVia`; the merge ORs No Local over all matching subscriptions of the client: F03);
+    * connection `n` is written **at most one** PUBLISH;
+    * every output is an inline delivery or a copy of the message (payload, QoS 0, origin; the topic bytes may be
+      replaced by a topic alias). -/
+theorem publishToSubscribers_writes_exact (s : Server) (hw : WF s) (hcd : ConnDistinct s) (pk : Msg)
+    (hig : pk.ignore = false) (ht : pk.type = 3)
+    (hq : pk.qos = 0 ∨ ∀ cs ∈ (subscribers s.topics pk.topic).subs, cs.2.qos = 0)
+    (hsh : (subscribers s.topics pk.topic).shared = []) (n : Nat) :
+    ((∃ ver m me, Out.wrote n (.publish ver m me) ∈ (publishToSubscribers s pk).2) ↔
+      EntitledVia s pk (subscribers s.topics pk.topic).subs n) ∧
+    ((publishToSubscribers s pk).2.filterMap pubConn).count n ≤ 1 ∧
+    ∀ x ∈ (publishToSubscribers s pk).2, (∃ id, x = Out.inline id pk.topic pk.payload) ∨ IsCopy pk x := by
+  obtain ⟨h1, h2⟩ := publishToSubscribers_pubConns s pk (fun id i h => (hw.clients_valid id i h).1) hig ht hq hsh
+  refine ⟨?_, ?_, h2⟩
+  · rw [← mem_pubConns, h1]
+    exact mem_recipients s hw pk _ n
+  · rw [h1]
+    exact List.nodup_iff_count.mp
+      (recipients_nodup s hw hcd pk _ (C03_one_entry_per_client s.topics pk.topic)) n
+
+/-! ## … lifted to the declarative matcher (state level)
+
+`EntitledF03`, `EntitledSpec`, `MixedNoLocal`, `MatchingSub`: `Mochi/Lemmas/BrokerDelivery.lean`. -/
+
+/-- **Step 2.**  "has an entry in the subscriber map" becomes "the index holds a plain subscription of the client
+    whose filter `specMatch`es the topic" (C01's scan exactness, re-proved for every structurally sound index
+    `IdxOK` — `hasSub_subscribers_idx`), and the No Local option of the merged subscription becomes "SOME matching
+    subscription of the client has No Local" (F03): `EntitledF03`.  Topic: non-empty, no level `#` (PUBLISH topics
+    contain no wildcard: `publishValidate`). -/
+theorem C03_delivery_exact_state_partial (s : Server) (hw : WF s) (hcd : ConnDistinct s) (hx : IdxOK s.topics)
+    (pk : Msg) (hig : pk.ignore = false) (ht : pk.type = 3)
+    (hq : pk.qos = 0 ∨ ∀ cs ∈ (subscribers s.topics pk.topic).subs, cs.2.qos = 0) (hne : pk.topic ≠ [])
+    (hnh : ∀ t ∈ splitLevels pk.topic, t ≠ [hash]) (hsh : (subscribers s.topics pk.topic).shared = []) (n : Nat) :
+    ((∃ ver m me, Out.wrote n (.publish ver m me) ∈ (publishToSubscribers s pk).2) ↔ EntitledF03 s pk n) ∧
+    ((publishToSubscribers s pk).2.filterMap pubConn).count n ≤ 1 ∧
+    ∀ x ∈ (publishToSubscribers s pk).2, (∃ id, x = Out.inline id pk.topic pk.payload) ∨ IsCopy pk x := by
+  obtain ⟨h1, h2, h3⟩ := publishToSubscribers_writes_exact s hw hcd pk hig ht hq hsh n
+  exact ⟨h1.trans (entitledVia_iff_F03 s hx pk hne hnh (C03_one_entry_per_client s.topics pk.topic) n), h2, h3⟩
+
+/-- the same with the hypothesis of C01: the index is the result of a history of index operations -/
+theorem C03_delivery_exact_runOps_partial (s : Server) (hw : WF s) (hcd : ConnDistinct s) (iops : List IOp)
+    (hx : s.topics = runOps iops)
+    (pk : Msg) (hig : pk.ignore = false) (ht : pk.type = 3)
+    (hq : pk.qos = 0 ∨ ∀ cs ∈ (subscribers s.topics pk.topic).subs, cs.2.qos = 0) (hne : pk.topic ≠ [])
+    (hnh : ∀ t ∈ splitLevels pk.topic, t ≠ [hash]) (hsh : (subscribers s.topics pk.topic).shared = []) (n : Nat) :
+    ((∃ ver m me, Out.wrote n (.publish ver m me) ∈ (publishToSubscribers s pk).2) ↔ EntitledF03 s pk n) ∧
+    ((publishToSubscribers s pk).2.filterMap pubConn).count n ≤ 1 :=
+  let h := C03_delivery_exact_state_partial s hw hcd (hx ▸ idxOK_runOps iops) pk hig ht hq hne hnh hsh n
+  ⟨h.1, h.2.1⟩
+
+/-! ## … in every history without schedule ops
+
+`SeqOps`: connects, inbound packets (SUBSCRIBE, UNSUBSCRIBE, PUBLISH, acks, DISCONNECT), dropped connections,
+housekeeping ticks and the inline API — everything except the four schedule ops that park a handler. -/
+
+/-- **C03 as stated** (kept visible; NOT proved — it is false of the model, see `C03_delivery_full_false_F03`):
+    in any history, for every application message, a PUBLISH carrying it is written to connection `n` exactly when
+    `n` is a connected client holding at least one matching subscription that it may read and whose No Local option
+    does not exclude it (`EntitledSpec`), and at most once. -/
+def C03_delivery_full : Prop :=
+  ∀ (caps : Caps) (ops : List Op), OpsFresh (init caps) ops →
+    ∀ (pk : Msg) (n : Nat), pk.type = 3 → pk.ignore = false →
+      ((∃ ver m me, Out.wrote n (.publish ver m me) ∈ (publishToSubscribers (run (init caps) ops) pk).2) ↔
+        EntitledSpec (run (init caps) ops) pk n) ∧
+      ((publishToSubscribers (run (init caps) ops) pk).2.filterMap pubConn).count n ≤ 1
+
+/-- **Step 3, on the invariants.**  The statement of steps 1/2 in every state that satisfies the three all-history
+    invariants `SyncInv` (index and sessions agree), `WF` (the tables are maps), `ConnMap` (one connection per
+    client object), plus the session reading of "holds a matching entry". -/
+theorem C03_delivery_exact_inv_partial (s : Server) (hs : SyncInv s) (hw : WF s) (hcm : ConnMap s)
+    (pk : Msg) (hig : pk.ignore = false) (ht : pk.type = 3)
+    (hq : pk.qos = 0 ∨ ∀ c sub, MatchingSub s.topics pk.topic c sub → sub.qos = 0)
+    (hne : pk.topic ≠ []) (hnh : ∀ t ∈ splitLevels pk.topic, t ≠ [hash])
+    (hsh : (subscribers s.topics pk.topic).shared = []) (n : Nat) :
+    ((∃ ver m me, Out.wrote n (.publish ver m me) ∈ (publishToSubscribers s pk).2) ↔ EntitledF03 s pk n) ∧
+    (EntitledF03 s pk n ↔ EntitledSession s pk n) ∧
+    ((publishToSubscribers s pk).2.filterMap pubConn).count n ≤ 1 ∧
+    ∀ x ∈ (publishToSubscribers s pk).2, (∃ id, x = Out.inline id pk.topic pk.payload) ∨ IsCopy pk x := by
+  have hq' := hq.imp id (merged_qos_zero s.topics hs.idx pk.topic hne hnh (C03_one_entry_per_client s.topics pk.topic))
+  obtain ⟨h1, h2, h3⟩ := C03_delivery_exact_state_partial s hw hcm.distinct hs.idx pk hig ht hq' hne hnh hsh n
+  exact ⟨h1, entitledF03_iff_session hs hw pk n, h2, h3⟩
+
+/-- **Step 3 — `C03_delivery_exact_seq`, restricted (hence `_partial`).**  For every state `s` reached from
+    `init caps` by ops that are not schedule ops (connection numbers fresh), interleaved with configuration changes
+    (ACL denials, publish hook, authentication mode, seeds: `ReachSeq`), and every application message `pk` that is
+    QoS 0 after shaping and whose topic no shared subscription of the index matches:
+
+    1. a PUBLISH is written to connection `n` **iff** `EntitledF03 s pk n` — `n` is the connection of a client
+       object registered under its id, open, not inline, peer not gone; the index holds a plain subscription of that
+       id whose filter `specMatch`es the topic; the id may read the topic; and it is not the case that the id is the
+       publisher and some matching subscription of it has No Local (the merge of F03);
+    2. "the index holds a matching plain subscription of the id" is equivalent to "the registered session lists a
+       plain filter that `specMatch`es the topic" (`EntitledSession`; `IndexSync` and `IndexSyncPlain`);
+    3. connection `n` is written at most one PUBLISH;
+    4. every output is an inline delivery or a copy of the message (payload, QoS 0, origin).
+
+    Excluded: shared subscriptions matching the topic (`hsh`), deliveries of QoS > 0 (in-flight limit, packet
+    identifiers, send quota — `hq`: the message is QoS 0, or every matching subscription of the index is), topic
+    aliases as far as the topic BYTES of the copy go (conclusion 4 does not mention them), schedule ops (`ReachSeq`),
+    and the No Local merge (1. states what the model does, not what C03 asks: F03). -/
+theorem C03_delivery_exact_reach_partial (caps : Caps) (s : Server) (hr : ReachSeq caps s)
+    (pk : Msg) (hig : pk.ignore = false) (ht : pk.type = 3)
+    (hq : pk.qos = 0 ∨ ∀ c sub, MatchingSub s.topics pk.topic c sub → sub.qos = 0)
+    (hne : pk.topic ≠ []) (hnh : ∀ t ∈ splitLevels pk.topic, t ≠ [hash])
+    (hsh : (subscribers s.topics pk.topic).shared = []) (n : Nat) :
+    ((∃ ver m me, Out.wrote n (.publish ver m me) ∈ (publishToSubscribers s pk).2) ↔ EntitledF03 s pk n) ∧
+    (EntitledF03 s pk n ↔ EntitledSession s pk n) ∧
+    ((publishToSubscribers s pk).2.filterMap pubConn).count n ≤ 1 ∧
+    ∀ x ∈ (publishToSubscribers s pk).2, (∃ id, x = Out.inline id pk.topic pk.payload) ∨ IsCopy pk x :=
+  C03_delivery_exact_inv_partial s hr.inv.1 hr.inv.2.1 hr.inv.2.2.1 pk hig ht hq hne hnh hsh n
+
+/-- the same for `s := run (init caps) ops`, `ops` a history without schedule ops (no configuration change: no
+    ACL denial is ever in force in such a state — use `C03_delivery_exact_reach_partial` for those) -/
+theorem C03_delivery_exact_seq_partial (caps : Caps) (ops : List Op) (hseq : SeqOps ops)
+    (hf : OpsFresh (init caps) ops) (pk : Msg) (hig : pk.ignore = false) (ht : pk.type = 3)
+    (hq : pk.qos = 0 ∨ ∀ c sub, MatchingSub (run (init caps) ops).topics pk.topic c sub → sub.qos = 0)
+    (hne : pk.topic ≠ []) (hnh : ∀ t ∈ splitLevels pk.topic, t ≠ [hash])
+    (hsh : (subscribers (run (init caps) ops).topics pk.topic).shared = []) (n : Nat) :
+    ((∃ ver m me, Out.wrote n (.publish ver m me) ∈ (publishToSubscribers (run (init caps) ops) pk).2) ↔
+      EntitledF03 (run (init caps) ops) pk n) ∧
+    (EntitledF03 (run (init caps) ops) pk n ↔ EntitledSession (run (init caps) ops) pk n) ∧
+    ((publishToSubscribers (run (init caps) ops) pk).2.filterMap pubConn).count n ≤ 1 ∧
+    ∀ x ∈ (publishToSubscribers (run (init caps) ops) pk).2,
+      (∃ id, x = Out.inline id pk.topic pk.payload) ∨ IsCopy pk x :=
+  C03_delivery_exact_reach_partial caps _ (ReachSeq.init.run ops hseq hf) pk hig ht hq hne hnh hsh n
+
+/-- outside the F03 situation (the publisher holds a matching subscription with No Local AND a matching one without)
+    the recipients are exactly those C03 names -/
+theorem C03_delivery_exact_reach_spec_partial (caps : Caps) (s : Server) (hr : ReachSeq caps s)
+    (pk : Msg) (hig : pk.ignore = false) (ht : pk.type = 3)
+    (hq : pk.qos = 0 ∨ ∀ c sub, MatchingSub s.topics pk.topic c sub → sub.qos = 0)
+    (hne : pk.topic ≠ []) (hnh : ∀ t ∈ splitLevels pk.topic, t ≠ [hash])
+    (hsh : (subscribers s.topics pk.topic).shared = []) (hmix : ¬ MixedNoLocal s pk) (n : Nat) :
+    ((∃ ver m me, Out.wrote n (.publish ver m me) ∈ (publishToSubscribers s pk).2) ↔ EntitledSpec s pk n) ∧
+    ((publishToSubscribers s pk).2.filterMap pubConn).count n ≤ 1 := by
+  obtain ⟨h1, _, h3, _⟩ := C03_delivery_exact_reach_partial caps s hr pk hig ht hq hne hnh hsh n
+  exact ⟨h1.trans (entitledF03_iff_spec hmix n), h3⟩
+
+/-- soundness holds without the F03 proviso: whoever is written the message is entitled in the sense of C03 -/
+theorem C03_delivery_sound_reach_partial (caps : Caps) (s : Server) (hr : ReachSeq caps s)
+    (pk : Msg) (hig : pk.ignore = false) (ht : pk.type = 3)
+    (hq : pk.qos = 0 ∨ ∀ c sub, MatchingSub s.topics pk.topic c sub → sub.qos = 0)
+    (hne : pk.topic ≠ []) (hnh : ∀ t ∈ splitLevels pk.topic, t ≠ [hash])
+    (hsh : (subscribers s.topics pk.topic).shared = []) (n : Nat)
+    (h : ∃ ver m me, Out.wrote n (.publish ver m me) ∈ (publishToSubscribers s pk).2) : EntitledSpec s pk n :=
+  ((C03_delivery_exact_reach_partial caps s hr pk hig ht hq hne hnh hsh n).1.mp h).spec
+
+/-! ## Non-vacuity
+
+Three kinds of subscriber (an MQTT 3.1.1 client, MQTT 5 clients, an inline subscriber), overlapping plain
+subscriptions (`a/#`, `a/+`, `a/b`), a No Local subscription of the publisher, a read-ACL denial, a closed session. -/
+
+/-- `x` (MQTT 3.1.1, connection 1): `a/#`.  `y` (MQTT 5, connection 2): `a/+` and `a/b` — two matches, one copy.
+    Inline subscriber 7: `a/b`.  `p` (connection 3, the publisher): `a/b` with No Local.  `z` (connection 4): `a/#`, but
+    denied to read `a/b` (configured below).  `w` (connection 5, session expiry 100): `a/b`, then its connection is
+    lost — the session stays, closed. -/
+def c03History : List Op :=
+  [.connect 1 { ver := 4, id := [120] },
+   .recv 1 (.subscribe 1 0 [{ filter := [97, 47, 35] }]),
+   .connect 2 { ver := 5, id := [121] },
+   .recv 2 (.subscribe 1 0 [{ filter := [97, 47, 43] }, { filter := [97, 47, 98] }]),
+   .inlineSubscribe 7 [97, 47, 98],
+   .connect 3 { ver := 5, id := [112] },
+   .recv 3 (.subscribe 1 0 [{ filter := [97, 47, 98], noLocal := true }]),
+   .connect 4 { ver := 5, id := [122] },
+   .recv 4 (.subscribe 1 0 [{ filter := [97, 47, 35] }]),
+   .connect 5 { ver := 5, id := [119], clean := false, sei := some 100 },
+   .recv 5 (.subscribe 1 0 [{ filter := [97, 47, 98] }]),
+   .drop 5]
+
+/-- the state after the history, with the read denial `(z, a/b)` configured (`bk.acl` of the harness) -/
+def c03State : Server := { run (init {}) c03History with aclDeny := [([122], [97, 47, 98], false)] }
+
+/-- `p` publishes `a/b`, QoS 0 -/
+def c03Msg : Msg := { topic := [97, 47, 98], payload := [1], origin := [112] }
+
+theorem c03State_reach : ReachSeq {} c03State :=
+  (ReachSeq.init.run c03History (by decide) (by decide)).config ⟨rfl, rfl, rfl, rfl, rfl, rfl, rfl, rfl⟩
+
+/-- the hypotheses of `C03_delivery_exact_reach_partial` hold … -/
+example : c03Msg.ignore = false ∧ c03Msg.type = 3 ∧ c03Msg.qos = 0 ∧ c03Msg.topic ≠ [] ∧
+    (∀ t ∈ splitLevels c03Msg.topic, t ≠ [hash]) ∧ (subscribers c03State.topics c03Msg.topic).shared = [] := by decide
+/-- … all six sessions are registered, five entries of the subscriber map (one per client id, `y` once) … -/
+example : c03State.clients.map (·.1) = [inlineID, [120], [121], [112], [122], [119]] := by decide
+example : (subscribers c03State.topics c03Msg.topic).subs.map (·.1) = [[121], [112], [119], [120], [122]] := by decide
+/-- … and the publish reaches exactly connections 2 and 1, each once, and the inline subscriber: three outputs -/
+example : (publishToSubscribers c03State c03Msg).2.filterMap pubConn = [2, 1] := by decide
+example : (publishToSubscribers c03State c03Msg).2.length = 3 ∧
+    Out.inline 7 [97, 47, 98] [1] ∈ (publishToSubscribers c03State c03Msg).2 := by decide
+
+/-- a QoS 1 message is covered too: every matching subscription is QoS 0 -/
+example : (∀ cs ∈ (subscribers c03State.topics c03Msg.topic).subs, cs.2.qos = 0) ∧
+    (publishToSubscribers c03State { c03Msg with qos := 1, id := 9 }).2.filterMap pubConn = [2, 1] := by decide
+
+/-- the theorem, instantiated: `x` and `y` are entitled (read off the outputs), the publisher (No Local), `z` (read
+    denial) and `w` (closed) are not -/
+example : EntitledF03 c03State c03Msg 1 ∧ EntitledF03 c03State c03Msg 2 ∧ ¬ EntitledF03 c03State c03Msg 3 ∧
+    ¬ EntitledF03 c03State c03Msg 4 ∧ ¬ EntitledF03 c03State c03Msg 5 := by
+  have h := fun n => (C03_delivery_exact_reach_partial {} c03State c03State_reach c03Msg rfl rfl (Or.inl rfl) (by decide)
+    (by decide) (by decide) n).1
+  have ho : (publishToSubscribers c03State c03Msg).2.filterMap pubConn = [2, 1] := by decide
+  refine ⟨(h 1).mp (mem_pubConns.mp (by rw [ho]; decide)), (h 2).mp (mem_pubConns.mp (by rw [ho]; decide)), ?_, ?_, ?_⟩ <;>
+  · intro e
+    have := mem_pubConns.mpr ((h _).mpr e)
+    rw [ho] at this
+    revert this
+    decide
+
+/-- F03, as a history: `p` holds `a/#` with No Local and `a/b` without; it publishes `a/b` -/
+def f03History : List Op :=
+  [.connect 1 { ver := 5, id := [112] },
+   .recv 1 (.subscribe 1 0 [{ filter := [97, 47, 35], noLocal := true }]),
+   .recv 1 (.subscribe 2 0 [{ filter := [97, 47, 98] }])]
+
+/-- `p` is entitled in the sense of C03 (through `a/b`), and is written nothing: **C03 as stated is false of the model
+    (and of the broker: recorded finding F03)** -/
+theorem C03_delivery_full_false_F03 : ¬ C03_delivery_full := by
+  intro h
+  have h1 := (h {} f03History (by decide) { topic := [97, 47, 98], payload := [1], origin := [112] } 1 rfl rfl).1
+  have hs : EntitledSpec (run (init {}) f03History) { topic := [97, 47, 98], payload := [1], origin := [112] } 1 :=
+    ⟨[112], 1, by decide, by decide, by decide, by decide, by decide, by decide, { filter := [97, 47, 98] },
+      ⟨by decide, by decide⟩, by decide⟩
+  obtain ⟨ver, m, me, hm⟩ := h1.mpr hs
+  have ho : (publishToSubscribers (run (init {}) f03History)
+      { topic := [97, 47, 98], payload := [1], origin := [112] }).2 = [] := by decide
+  rw [ho] at hm
+  cases hm
+
+/-- … while the restricted theorem applies to that very state and says so: the F03 situation is present, `p` is not
+    entitled in the model's sense -/
+example : MixedNoLocal (run (init {}) f03History) { topic := [97, 47, 98], payload := [1], origin := [112] } :=
+  ⟨{ filter := [97, 47, 35], noLocal := true }, { filter := [97, 47, 98] }, ⟨by decide, by decide⟩, rfl,
+    ⟨by decide, by decide⟩, rfl⟩
+
 end Mochi.Broker
+
+#print axioms Mochi.Broker.publishToSubscribers_writes_exact
+#print axioms Mochi.Broker.C03_delivery_exact_state_partial
+#print axioms Mochi.Broker.C03_delivery_exact_runOps_partial
+#print axioms Mochi.Broker.C03_delivery_exact_inv_partial
+#print axioms Mochi.Broker.C03_delivery_exact_reach_partial
+#print axioms Mochi.Broker.C03_delivery_exact_seq_partial
+#print axioms Mochi.Broker.C03_delivery_exact_reach_spec_partial
+#print axioms Mochi.Broker.C03_delivery_sound_reach_partial
+#print axioms Mochi.Broker.C03_delivery_full_false_F03
+#print axioms Mochi.Broker.c03State_reach
